@@ -3,7 +3,7 @@
 From GM Require Import Base.Prelude Base.Outcome Codec.Packets Codec.Settings Engine.Model
   EngineProofs.AssocLemmas EngineProofs.PacketIds EngineProofs.WFLemmas EngineProofs.WFDefs EngineProofs.WFCore
   EngineProofs.WFComplete EngineProofs.WFClose EngineProofs.WFClose2 EngineProofs.WFService EngineProofs.WFService4
-  EngineProofs.WFEvents EngineProofs.WFData3.
+  EngineProofs.WFEvents EngineProofs.WFData3 EngineProofs.WFTrack.
 From Coq Require Import Sorting.Sorted.
 From RecordUpdate Require Import RecordSet.
 Import RecordSetNotations.
@@ -142,18 +142,18 @@ Section Step.
       destruct (pstate_eqb (s_st s) Disconnected) eqn:Est.
       + apply pstate_eqb_eq in Est. rewrite (net_closed_disconnected cfg s Est). cbn. split; [intros; discriminate|].
         split; [split; [exact HW|exact I]|exact HI].
-      + apply pstate_eqb_neq in Est. destruct (net_closed_spec cfg s HW Est) as (E & W1 & S1 & (F1 & F2 & F3 & F4 & F5 & F6) & _ & Hc).
+      + apply pstate_eqb_neq in Est. destruct (net_closed_spec cfg s HW Est) as (E & W1 & S1 & (F1 & F2 & F3 & F4 & F5 & F6) & (_ & Hc) & _).
         rewrite E. cbn [halt_on_error]. split; [intros; discriminate|]. split; [|eapply cinv_comp; [exact Hc|exact HI]].
         split; [exact W1|]. unfold WFP. rewrite S1. splits; assumption.
     - (* inbound bytes *)
-      cbn [fst snd o_res]. assert (Hd : hps_post cfg HC (net_data s now data)) by (eapply net_data_spec; eauto).
-      destruct Hd as (N1 & W1 & P1 & J1). split; [exact N1|apply WF_halt; assumption].
-    - destruct (net_write_completion_spec cfg s HWF) as (N1 & W1 & P1 & Hc). unfold out_of_res. cbn [fst snd o_res].
+      cbn [fst snd o_res]. assert (Hd : hps_post cfg HC (TR s) (net_data s now data)) by (eapply net_data_spec; eauto).
+      destruct Hd as (N1 & W1 & P1 & J1 & _). split; [exact N1|apply WF_halt; assumption].
+    - destruct (net_write_completion_spec cfg s HWF) as (N1 & W1 & P1 & Hc & _). unfold out_of_res. cbn [fst snd o_res].
       split; [exact N1|apply WF_halt; try assumption]. eapply cinv_comp; [exact Hc|exact HI].
     - (* service *)
       destruct Hev as [Hnow Hcap]. cbn [fst snd o_res].
-      assert (Hs : svc_post cfg HC (service s now cap fill)) by (eapply service_spec; eauto).
-      destruct Hs as (N1 & W1 & _ & J1). split; [exact N1|split; assumption].
+      assert (Hs : svc_post cfg HC (TR s) (service s now cap fill)) by (eapply service_spec; eauto).
+      destruct Hs as (N1 & W1 & _ & J1 & _). split; [exact N1|split; assumption].
     - (* next service time *)
       unfold next_service_time. destruct (s_st s) eqn:Est; cbn; try (split; [intros; discriminate|split; assumption]).
       + unfold WFP in HP. rewrite Est in HP. destruct (s_connack_to s); [|tauto]. cbn. split; [intros; discriminate|split; assumption].
@@ -183,5 +183,41 @@ Section Step.
     destruct (step s e) as [s1 o1] eqn:Es. destruct (run s1 r) as [s2 os] eqn:Er. cbn [fst snd] in *.
     destruct Hin as [<-|Hin]; [exact N1|].
     apply (IH s1 W1 Hr). rewrite Er. exact Hin.
+  Qed.
+  (* ---- no operation is silently dropped ---- *)
+  Lemma TR_halt (s : state) (out : outcome unit) : TR s -> TR (halt_on_error s out).
+  Proof. intros T. destruct out as [[]|k|site]; cbn [halt_on_error]; auto; (apply (TR_queues s); [reflexivity|unfold inQ; cbn; tauto|exact T]). Qed.
+
+  Theorem TR_init (o : ores) (i : ires) : TR (init (enc:=enc) dec_init o i).
+  Proof. apply TR_no_ops. reflexivity. Qed.
+
+  Theorem step_tr (s : state) e :
+    WFX s -> ok_event e -> ok_submit e -> TR s -> TR (fst (step s e)).
+  Proof.
+    intros [HWF HI] Hev Hsub HT. pose proof HWF as [HW HP].
+    destruct e as [now p t|now dl|now|now data|now|now cap fill|now|now]; cbn [Model.step].
+    - unfold out_of_res. cbn [fst]. apply user_event_tr; assumption.
+    - unfold out_of_res. cbn [fst]. apply TR_halt. apply net_opened_tr; assumption.
+    - unfold out_of_res. cbn [fst]. apply TR_halt.
+      destruct (pstate_eqb (s_st s) Disconnected) eqn:Est.
+      + apply pstate_eqb_eq in Est. rewrite (net_closed_disconnected cfg s Est). exact HT.
+      + apply pstate_eqb_neq in Est. destruct (net_closed_spec cfg s HW Est) as (_ & _ & _ & _ & _ & G). apply G. exact HT.
+    - cbn [fst]. apply TR_halt. assert (Hd : hps_post cfg HC (TR s) (net_data s now data)) by (eapply net_data_spec; eauto).
+      destruct Hd as (_ & _ & _ & _ & G). apply G. exact HT.
+    - unfold out_of_res. cbn [fst]. apply TR_halt. destruct (net_write_completion_spec cfg s HWF) as (_ & _ & _ & _ & G). apply G. exact HT.
+    - destruct Hev as [Hnow Hcap]. cbn [fst].
+      assert (Hs : svc_post cfg HC (TR s) (service s now cap fill)) by (eapply service_spec; eauto).
+      destruct Hs as (_ & _ & _ & _ & G). apply G. exact HT.
+    - destruct (next_service_time cfg s now); exact HT.
+    - unfold out_of_res. cbn [fst]. apply TR_no_ops. destruct (reset_spec cfg s HW) as (_ & _ & _ & E & _). exact E.
+  Qed.
+
+  Theorem run_tr : forall h (s : state), WFX s -> TR s -> Forall ok_event h -> Forall ok_submit h -> TR (fst (run s h)).
+  Proof.
+    induction h as [|e r IH]; intros s HWF HT Hall Hsub; cbn [Model.run]; [exact HT|].
+    inversion Hall as [|? ? He Hr]; subst. inversion Hsub as [|? ? Hs Hsr]; subst.
+    pose proof (WF_step s e HWF He) as HW1. pose proof (step_tr s e HWF He Hs HT) as HT1.
+    destruct (step s e) as [s1 o]. cbn [fst] in HW1, HT1. specialize (IH s1 HW1 HT1 Hr Hsr).
+    destruct (run s1 r) as [s2 os]. exact IH.
   Qed.
 End Step.
